@@ -40,6 +40,8 @@ pub struct ExtMetadataBlockLevel10 {
 
 impl ExtMetadataBlockLevel10 {
     pub(crate) fn parse(reader: &mut BsIoSliceReader, length: u64) -> Result<ExtMetadataBlock> {
+        ensure!(matches!(length, 5 | 21), "Invalid L10 block length: {length}");
+
         let mut block = Self {
             length,
             target_display_index: reader.get_n(8)?,
@@ -86,6 +88,11 @@ impl ExtMetadataBlockLevel10 {
     }
 
     pub fn validate(&self) -> Result<()> {
+        ensure!(
+            matches!(self.length, 5 | 21),
+            "Invalid L10 block length: {}",
+            self.length
+        );
         ensure!(!PRESET_TARGET_DISPLAYS.contains(&self.target_display_index));
         ensure!(self.target_max_pq <= MAX_PQ_LUMINANCE);
         ensure!(self.target_min_pq <= MAX_PQ_LUMINANCE);
